@@ -65,7 +65,9 @@ def arrAddToks (a : ArrSt) (values : List Str) : Except Err ArrSt :=
   else if a.wrap then
     if a.buf.isEmpty then
       match values with
-      | [v] => .ok { a with buf := [v] }
+      | [v] =>
+        if a.names.length = 1 then .ok { a with members := [v] :: a.members }
+        else .ok { a with buf := [v] }
       | _ => .error .wrapIndex
     else
       let buf := a.buf ++ values
@@ -161,14 +163,14 @@ def rowToks : List (List DCell) → List RowLay → List (List Str)
   | row :: rows, rs => row.map (printCell · (rs.headD {}).k) :: rowToks rows rs.tail
 
 theorem feed_rows_unwrapped (rows : List (List DCell)) : ∀ (rs : List RowLay) (S : List Section) (w : Option Value)
-    (names : List (Value × Value)) (members : List (List Str)) (rest : Str),
+    (nl : Int × Int) (names : List (Value × Value)) (members : List (List Str)) (rest : Str),
     (∀ row ∈ rows, row ≠ [] ∧ ∀ c ∈ row, wfCell c = true) →
-    feed ⟨S, w, none, .arr ⟨false, names, members, []⟩⟩ (printRows false rows rs ++ rest) =
-      feed ⟨S, w, none, .arr ⟨false, names, (rowToks rows rs).reverse ++ members, []⟩⟩ rest := by
+    feed ⟨S, w, none, .arr ⟨false, nl, names, members, []⟩⟩ (printRows false rows rs ++ rest) =
+      feed ⟨S, w, none, .arr ⟨false, nl, names, (rowToks rows rs).reverse ++ members, []⟩⟩ rest := by
   induction rows with
-  | nil => intro rs S w names members rest _; rfl
+  | nil => intro rs S w nl names members rest _; rfl
   | cons row rows ih =>
-    intro rs S w names members rest hw
+    intro rs S w nl names members rest hw
     obtain ⟨hne, hc⟩ := hw row List.mem_cons_self
     cases row with
     | nil => exact absurd rfl hne
@@ -182,7 +184,7 @@ theorem feed_rows_unwrapped (rows : List (List DCell)) : ∀ (rs : List RowLay) 
               exact printCell_isTok d _ (hc d (List.mem_cons_of_mem _ hd)))
         (goodTok_printCell c _ (hc c List.mem_cons_self))]
       simp only [thenArr, arrAddToks, List.isEmpty_cons, Bool.false_eq_true, if_false]
-      rw [ih rs.tail S w names _ rest (fun r hr => hw r (List.mem_cons_of_mem _ hr))]
+      rw [ih rs.tail S w nl names _ rest (fun r hr => hw r (List.mem_cons_of_mem _ hr))]
       simp [rowToks]
 
 theorem chunks_flatten {α : Type} (n : Nat) : ∀ (fuel : Nat) (l : List α), l.length ≤ fuel →
@@ -226,15 +228,15 @@ theorem chunks_ne_nil {α : Type} (n fuel : Nat) (l : List α) (hl : l ≠ []) (
     | cons a l => simp [chunks]
 
 theorem feed_chunks (cs : List (List Str)) : ∀ (pre : List Str) (S : List Section) (w : Option Value)
-    (names : List (Value × Value)) (members : List (List Str)) (r : RowLay) (rest : Str),
+    (nl : Int × Int) (names : List (Value × Value)) (members : List (List Str)) (r : RowLay) (rest : Str),
     pre ≠ [] → cs ≠ [] → (∀ c ∈ cs, c ≠ [] ∧ ∀ t ∈ c, goodTok t) →
     pre.length + cs.flatten.length = names.length →
-    feed ⟨S, w, none, .arr ⟨true, names, members, pre⟩⟩ ((cs.map (printDataLine · r)).flatten ++ rest) =
-      feed ⟨S, w, none, .arr ⟨true, names, (pre ++ cs.flatten) :: members, []⟩⟩ rest := by
+    feed ⟨S, w, none, .arr ⟨true, nl, names, members, pre⟩⟩ ((cs.map (printDataLine · r)).flatten ++ rest) =
+      feed ⟨S, w, none, .arr ⟨true, nl, names, (pre ++ cs.flatten) :: members, []⟩⟩ rest := by
   induction cs with
-  | nil => intro pre S w names members r rest _ h; exact absurd rfl h
+  | nil => intro pre S w nl names members r rest _ h; exact absurd rfl h
   | cons c cs ih =>
-    intro pre S w names members r rest hpre _ hcs hlen
+    intro pre S w nl names members r rest hpre _ hcs hlen
     obtain ⟨hcne, hct⟩ := hcs c List.mem_cons_self
     cases c with
     | nil => exact absurd rfl hcne
@@ -256,36 +258,46 @@ theorem feed_chunks (cs : List (List Str)) : ∀ (pre : List Str) (S : List Sect
         have h2 : ¬ (pre.length + (t :: ts).length > names.length) := by omega
         simp only [thenArr, arrAddToks, List.isEmpty_cons, Bool.false_eq_true, if_false, if_true, hpe,
           List.length_append, h1, h2]
-        rw [ih (pre ++ t :: ts) S w names members r rest (by simp) (by simp)
+        rw [ih (pre ++ t :: ts) S w nl names members r rest (by simp) (by simp)
           (fun x hx => hcs x (List.mem_cons_of_mem _ hx))
           (by simp only [List.flatten_cons, List.length_append]; omega)]
         simp
 
 theorem feed_rows_wrapped (rows : List (List DCell)) : ∀ (rs : List RowLay) (S : List Section) (w : Option Value)
-    (names : List (Value × Value)) (members : List (List Str)) (rest : Str),
-    2 ≤ names.length →
-    (∀ row ∈ rows, row.length = names.length ∧ ∀ c ∈ row, wfCell c = true) →
-    feed ⟨S, w, none, .arr ⟨true, names, members, []⟩⟩ (printRows true rows rs ++ rest) =
-      feed ⟨S, w, none, .arr ⟨true, names, (rowToks rows rs).reverse ++ members, []⟩⟩ rest := by
+    (nl : Int × Int) (names : List (Value × Value)) (members : List (List Str)) (rest : Str),
+    (∀ row ∈ rows, row ≠ [] ∧ row.length = names.length ∧ ∀ c ∈ row, wfCell c = true) →
+    feed ⟨S, w, none, .arr ⟨true, nl, names, members, []⟩⟩ (printRows true rows rs ++ rest) =
+      feed ⟨S, w, none, .arr ⟨true, nl, names, (rowToks rows rs).reverse ++ members, []⟩⟩ rest := by
   induction rows with
-  | nil => intro rs S w names members rest _ _; rfl
+  | nil => intro rs S w nl names members rest _; rfl
   | cons row rows ih =>
-    intro rs S w names members rest hn hw
-    obtain ⟨hlen, hc⟩ := hw row List.mem_cons_self
+    intro rs S w nl names members rest hw
+    obtain ⟨hrne, hlen, hc⟩ := hw row List.mem_cons_self
     cases row with
-    | nil => simp at hlen; omega
+    | nil => exact absurd rfl hrne
     | cons c cs =>
       cases cs with
-      | nil => simp at hlen; omega
+      | nil =>
+        -- only the index curve: the frame is complete with its index line
+        have h1 : names.length = 1 := by simp at hlen; omega
+        simp only [printRows, if_true, printRowWrapped, List.append_assoc, List.length_nil, List.map_nil, chunks,
+          List.flatten_nil, List.nil_append]
+        rw [feed_junk, feed_dataline S w _ _ [] _ _
+          (by intro x hx; simp at hx; subst hx; exact printCell_isTok c _ (hc c List.mem_cons_self))
+          (goodTok_printCell c _ (hc c List.mem_cons_self))]
+        simp only [thenArr, arrAddToks, List.isEmpty_cons, List.isEmpty_nil, Bool.false_eq_true, if_false, if_true, h1]
+        rw [ih rs.tail S w nl names _ rest (fun r hr => hw r (List.mem_cons_of_mem _ hr))]
+        simp [rowToks]
       | cons c2 cs =>
+        have h1 : ¬ names.length = 1 := by simp at hlen; omega
         simp only [printRows, if_true, printRowWrapped, List.append_assoc]
         rw [feed_junk, feed_dataline S w _ _ [] _ _
           (by intro x hx; simp at hx; subst hx; exact printCell_isTok c _ (hc c List.mem_cons_self))
           (goodTok_printCell c _ (hc c List.mem_cons_self))]
-        simp only [thenArr, arrAddToks, List.isEmpty_cons, List.isEmpty_nil, Bool.false_eq_true, if_false, if_true]
+        simp only [thenArr, arrAddToks, List.isEmpty_cons, List.isEmpty_nil, Bool.false_eq_true, if_false, if_true, h1]
         have hl := chunks_flatten (rs.headD {}).perLine (c2 :: cs).length
           ((c2 :: cs).map (printCell · (rs.headD {}).k)) (by simp)
-        rw [feed_chunks _ [printCell c (rs.headD {}).k] S w names members (rs.headD {}) _ (by simp)
+        rw [feed_chunks _ [printCell c (rs.headD {}).k] S w nl names members (rs.headD {}) _ (by simp)
           (chunks_ne_nil _ _ _ (by simp) (by simp))
           (by intro ch hch
               obtain ⟨h1, h2⟩ := chunks_mem _ _ _ ch hch
@@ -293,7 +305,7 @@ theorem feed_rows_wrapped (rows : List (List DCell)) : ∀ (rs : List RowLay) (S
               obtain ⟨d, hd, rfl⟩ := List.mem_map.1 (h2 t ht)
               exact goodTok_printCell d _ (hc d (List.mem_cons_of_mem _ hd)))
           (by rw [hl]; simp at hlen ⊢; omega)]
-        rw [hl, ih rs.tail S w names _ rest hn (fun r hr => hw r (List.mem_cons_of_mem _ hr))]
+        rw [hl, ih rs.tail S w nl names _ rest (fun r hr => hw r (List.mem_cons_of_mem _ hr))]
         simp [rowToks]
 
 theorem rowToks_length (rows : List (List DCell)) : ∀ (rs : List RowLay) (n : Nat),
@@ -322,10 +334,12 @@ theorem convert_rowToks (rows : List (List DCell)) : ∀ (rs : List RowLay),
     exact convertValue_printCell c _ (h row List.mem_cons_self c hc)
 
 /-- `LASSectionArray.finalise` on the rows read -/
-theorem finaliseArr_rows (wrap : Bool) (names : List (Value × Value)) (rows : List (List DCell)) (rs : List RowLay)
+theorem finaliseArr_rows (wrap : Bool) (nl : Int × Int) (names : List (Value × Value)) (rows : List (List DCell))
+    (rs : List RowLay)
     (hrows : ∀ row ∈ rows, row.length = names.length ∧ ∀ c ∈ row, wfCell c = true)
-    (hdup : hasDupX (rows.map (fun r => cellKey (expectCell (r.headD (.bad []))))) = false) :
-    finaliseArr ⟨wrap, names, (rowToks rows rs).reverse, []⟩ = .ok ⟨names, rows.map (fun r => r.map expectCell)⟩ := by
+    (hdup : hasDupX (rows.map (fun r => cellKey nl (expectCell (r.headD (.bad []))))) = false) :
+    finaliseArr ⟨wrap, nl, names, (rowToks rows rs).reverse, []⟩ =
+      .ok ⟨names, nl, rows.map (fun r => r.map expectCell)⟩ := by
   unfold finaliseArr
   simp only [List.isEmpty_nil, Bool.not_true, Bool.false_and, List.reverse_reverse, Bool.false_eq_true, if_false]
   cases hr : rows with
@@ -338,8 +352,8 @@ theorem finaliseArr_rows (wrap : Bool) (names : List (Value × Value)) (rows : L
       intro t ht
       have := rowToks_length rows rs names.length (fun r hr => (hrows r hr).1) t ht
       simp [this]
-    have hkeys : ((rowToks rows rs).map (fun r => r.map convertValue)).map (fun r => cellKey (r.headD .null)) =
-        rows.map (fun r => cellKey (expectCell (r.headD (.bad [])))) := by
+    have hkeys : ((rowToks rows rs).map (fun r => r.map convertValue)).map (fun r => cellKey nl (r.headD .null)) =
+        rows.map (fun r => cellKey nl (expectCell (r.headD (.bad [])))) := by
       rw [convert_rowToks rows rs (fun r hr => (hrows r hr).2), List.map_map]
       apply List.map_congr_left
       intro r _
